@@ -36,8 +36,8 @@ ASSUMPTIONS = [
     "partial-word variants take the low 1/2/3 bytes of data_input (the bytes transmitted first), as the class documents",
 ]
 BOUNDS = "COMB (K=1) over all register states and all data for every step function; wrappers: BMC from reset " \
-         "(USB2 CRC16 K=6 quick / K=10 thorough, everything free; USB3 CRC16/CRC32: base case K=1..2 with free data " \
-         "and directed multi-step runs with free controls / fixed words -- deeper free unrollings of the 32-bit " \
+         "(USB2 CRC16 K=6 quick / K=10 thorough, everything free; USB3 CRC16/CRC32: K=5 with free controls and fixed " \
+         "data words in quick, plus K=1..2 with free data in thorough -- deeper free unrollings of the 32-bit " \
          "XOR networks do not finish), plus the induction step from an arbitrary register value (all states, unbounded histories)"
 OUTSIDE = "the comparison sites that accept/reject packets (token detector, data receiver, link command / header " \
           "packet receivers) are checked by C01/C02/C35/C36; initial_value constructor arguments other than the USB default"
@@ -394,61 +394,57 @@ def _inv_output(ts, frame, h):
 
 
 def queries(tier):
+    """quick: per CRC one COMB query (step functions, all states x all data), one BMC from reset per wrapper (free
+    for the byte-wide USB2 CRC16, free controls / fixed data words for the 32-bit-per-step USB3 wrappers), the
+    induction step per wrapper (ind_open never fails a check, so every induction is paired with the COMB query of
+    the same step function and the BMC of the same wrapper) and short cosims.  thorough adds deeper / free-data
+    wrapper BMC and longer cosims."""
     validate_reference()
     thorough = tier != "quick"
     qs = [Query("comb_crc5", Crc5Harness, 1, split=False,
                 desc="COMB: both CRC5 functions vs 11 serial steps, all 2^11 inputs; reference vs published vectors"),
-          Query("cosim_crc5", Crc5Harness, 0, kind="cosim", cosim_cycles=200 if not thorough else 1000)]
+          Query("cosim_crc5", Crc5Harness, 0, kind="cosim", cosim_cycles=50 if not thorough else 1000)]
     wdesc = "wrapper from reset: outputs = complemented, reflected serial CRC of everything advanced since the " \
             "last clear; "
+    hdr_words = [0x00000280, 0x00010004, 0x00000000]
+    pay_words = [0x03000112, 0x520013FE, 0x02010100, 0x09000000]
     for tag, f in (("usb2_crc16", Crc16Usb2Harness), ("usb3_crc16", HeaderCrcHarness), ("usb3_crc32", PayloadCrcHarness)):
         ff = (lambda tag=tag: FnHarness(tag))
         qs.append(Query(f"comb_{tag}", ff, 1, timeout=600, split=False,
                         desc="COMB: step function(s) on a free register state and free data vs bit-serial steps "
                              "(all states x all inputs)"))
         qs.append(Query(f"cosim_comb_{tag}", ff, 0, kind="cosim",
-                        cosim_cycles=(8 if tag == "usb3_crc32" else 30) if not thorough else 100))
+                        cosim_cycles=(4 if tag == "usb3_crc32" else 10) if not thorough else 100))
         if tag == "usb2_crc16":
             qs.append(Query(f"bmc_{tag}", f, 10 if thorough else 6, timeout=600, split=False,
                             desc=wdesc + "controls and data free every cycle"))
-        elif tag == "usb3_crc16":
-            # deeper free unrollings of the 32-bit-per-step XOR networks do not normalise in the solver (K=3
-            # unknown after 60 s); the induction query below covers every deeper history
-            words = [0x00000280, 0x00010004, 0x00000000]
-            qs.append(Query(f"bmc_{tag}_directed", f, 5, covers=[], timeout=600,
-                            layer=dict(data_input=lambda t: words[t % 3]),
-                            desc=wdesc + "controls free every cycle, data words fixed (captured header packet)"))
-            if thorough:
-                qs.append(Query(f"bmc_{tag}", f, 2, covers=[], timeout=600,
-                                desc=wdesc + "base case of the induction + one free step, controls and data free"))
-            qs.append(Query(f"cover_{tag}", f, 6, asserts=[], timeout=600, hints={"*": {"data_input": 0x520013FE}},
-                            desc="reachability twins of the wrapper assertions (witness search hinted to a fixed data word)"))
         else:
-            qs.append(Query(f"bmc_{tag}_base", f, 1, covers=[], timeout=600, split=False,
-                            asserts=None if thorough else ["crc32_output"],
-                            desc=wdesc + "base case of the induction: outputs in the reset state, data free"))
+            # free unrollings of the 32-bit-per-step XOR networks do not normalise in the solver (header CRC K=3
+            # unknown after 60 s, CRC32 K=2 ~70 s); quick therefore runs the wrapper from reset with *free
+            # controls* and fixed data words (wiring of clear / every advance input / every output, and the base
+            # case of the induction); all data and all states are covered by COMB + induction
+            words = hdr_words if tag == "usb3_crc16" else pay_words
+            qs.append(Query(f"bmc_{tag}_directed", f, 5, timeout=600, split=False,
+                            layer=dict(data_input=lambda t, words=words: words[t % len(words)]),
+                            desc=wdesc + "controls free every cycle, data words fixed (captured packets)"))
+        if thorough and tag == "usb3_crc16":
+            qs.append(Query(f"bmc_{tag}", f, 2, covers=[], timeout=600,
+                            desc=wdesc + "one free step from reset, controls and data free"))
+        if thorough and tag == "usb3_crc32":
             names = ("advance_word", "advance_3B", "advance_2B", "advance_1B")
-            seq = {0: 0x03000112, 1: 0x520013FE, 2: 0x02010100}
-            for n in names + ("clear",):
-                ctl = {x: (lambda t, x=x, n=n: int((t == 0 and x == "advance_word") or (t == 1 and x == n)))
-                       for x in names + ("clear",)}
-                qs.append(Query(f"bmc_{tag}_directed_{n}", f, 3, covers=[], split=False, timeout=600,
-                                layer=dict(ctl, data_input=lambda t: seq[t]),
-                                desc=wdesc + f"directed: full word, then '{n}', fixed data (wiring of every advance "
-                                     "input and next_crc output on concrete words)"))
-            if thorough:
-                cases = {"clear": dict(clear=_at0(1)), "none": dict(clear=_at0(0), **{n: _at0(0) for n in names})}
-                for n in names:
-                    cases[n] = dict(clear=_at0(0), **{x: _at0(int(x == n)) for x in names})
-                for cn, layer in cases.items():
-                    qs.append(Query(f"bmc_{tag}_{cn}", f, 2, asserts=["crc32_output"], covers=[], layer=layer, timeout=600,
-                                    desc=wdesc + f"one step from reset with first-cycle controls = case '{cn}', data free"))
-            qs.append(Query(f"cover_{tag}", f, 6, asserts=[], timeout=600, hints={"*": {"data_input": 0x520013FE}},
-                            desc="reachability twins of the wrapper assertions (witness search hinted to a fixed data word)"))
+            qs.append(Query(f"bmc_{tag}_base", f, 1, covers=[], timeout=600, split=False,
+                            desc=wdesc + "all outputs in the reset state, data free"))
+            cases = {"clear": dict(clear=_at0(1)), "none": dict(clear=_at0(0), **{n: _at0(0) for n in names})}
+            for n in names:
+                cases[n] = dict(clear=_at0(0), **{x: _at0(int(x == n)) for x in names})
+            for cn, layer in cases.items():
+                qs.append(Query(f"bmc_{tag}_{cn}", f, 2, asserts=["crc32_output"], covers=[], layer=layer, timeout=600,
+                                desc=wdesc + f"one step from reset with first-cycle controls = case '{cn}', data free"))
         qs.append(Query(f"ind_{tag}", f, 1, kind="ind", invariants=_inv_output, timeout=600,
                         desc="induction step from an arbitrary register value (ghost = register): every output correct "
                              "now and the correspondence holds after any one step with free controls and data "
-                             "(all 2^k register states, unbounded histories)"))
+                             "(all 2^k register states, unbounded histories); paired with comb_" + tag + " and the "
+                             "wrapper BMC, which are what fails the check if the code breaks"))
         qs.append(Query(f"cosim_{tag}", f, 0, kind="cosim",
-                        cosim_cycles=(60 if tag != "usb2_crc16" else 200) if not thorough else 400))
+                        cosim_cycles=(30 if tag != "usb2_crc16" else 100) if not thorough else 400))
     return qs
